@@ -116,6 +116,8 @@ class InterpreterAnalyzer(ASTTemplate):
     is_from_having: bool = False
     is_from_rule: bool = False
     is_from_join: bool = False
+    # What the join aliases of the statement under analysis replaced in `datasets` (None = nothing)
+    join_alias_saved: Optional[Dict[str, Any]] = None
     is_from_hr_val: bool = False
     is_from_hr_agg: bool = False
     # Handlers for simplicity
@@ -166,6 +168,7 @@ class InterpreterAnalyzer(ASTTemplate):
             ) and not isinstance(child, (AST.Assignment, AST.PersistentAssignment)):
                 raise SemanticError("1-2-5")
             result = self.visit(child)
+            self._drop_join_aliases()
             if isinstance(result, Dataset) and result.name in self.datasets_inputs:
                 invalid_dataset_outputs.append(result.name)
             if isinstance(result, Scalar) and result.name in self.scalars_inputs:
@@ -1093,13 +1096,29 @@ class InterpreterAnalyzer(ASTTemplate):
             )
             result.data.reset_index(drop=True, inplace=True)
 
+    def _drop_join_aliases(self) -> None:
+        """Join aliases are local to their statement: give `datasets` back what they replaced."""
+        if self.join_alias_saved and self.datasets is not None:
+            for alias, previous in self.join_alias_saved.items():
+                if previous is None:
+                    self.datasets.pop(alias, None)
+                else:
+                    self.datasets[alias] = previous
+        self.join_alias_saved = None
+
     def visit_JoinOp(self, node: AST.JoinOp) -> Any:
         clause_elements = []
         for clause in node.clauses:
             clause_elements.append(self.visit(clause))
             if hasattr(clause, "op") and clause.op == AS:
-                # TODO: We need to delete somewhere the join datasets with alias that are added here
-                self.datasets[clause_elements[-1].name] = clause_elements[-1]
+                # The aliased operands are visible under their alias until the end of the
+                # statement (see _drop_join_aliases)
+                alias = clause_elements[-1].name
+                if self.join_alias_saved is None:
+                    self.join_alias_saved = {}
+                if alias not in self.join_alias_saved:
+                    self.join_alias_saved[alias] = self.datasets.get(alias)  # type: ignore[union-attr]
+                self.datasets[alias] = clause_elements[-1]  # type: ignore[index]
 
         nvl_defaults: Optional[Dict[str, Any]] = None
         if node.nvl:
